@@ -189,6 +189,33 @@ def _parameters(ck):
     enc.compare(ck, "params/convection/d_scale", 0, enc.outs[1], [], family=fam)
 
 
+def _finite_replay(nm, mk, shape):
+    """a divisor of the derivative program can vanish: evaluate the real derivatives at the model's state (and at
+    the zero / constant states) and report only if they are not finite while the step itself is"""
+
+    def replay(model):
+        from fractions import Fraction as F
+
+        L = float(model["L"]) if isinstance(model.get("L"), F) else 1.3
+        states = []
+        u = np.zeros(shape)
+        for i in np.ndindex(shape):
+            v = model.get("u" + "".join(f"_{k}" for k in i))
+            u[i] = float(v) if isinstance(v, F) else 0.0
+        states += [u, np.zeros(shape), np.full(shape, 0.7)]
+        st = mk(L if L > 0 else 1.3)
+        for s0 in states:
+            s0 = jnp.asarray(s0)
+            out = st(s0)
+            jv = jax.jvp(st, (s0,), (jnp.ones(shape),))[1]
+            vj = jax.vjp(st, s0)[1](jnp.ones(shape))[0]
+            if bool(jnp.all(jnp.isfinite(out))) and not (bool(jnp.all(jnp.isfinite(jv))) and bool(jnp.all(jnp.isfinite(vj)))):
+                return {"reproduced": True, "detail": f"{nm}: the step at state {np.asarray(s0).reshape(-1)[:4].tolist()}... is finite but its JVP/VJP is not (NaN/inf)"}
+        return {"reproduced": False, "detail": f"{nm}: derivatives finite at the model state and at constant states"}
+
+    return replay
+
+
 def _finiteness(ck):
     """derivative programs of the steppers with guarded divisions: no concrete undefined value reaches the
     output and every symbolic divisor is non-zero under L > 0"""
@@ -197,6 +224,12 @@ def _finiteness(ck):
         ("NavierStokesVorticity", lambda L: S.NavierStokesVorticity(2, L, 4, 0.01, order=1), (1, 4, 4)),
         ("Wave", lambda L: S.Wave(1, L, N, 0.1), (2, N)),
         ("Poisson", lambda L: ex.poisson.Poisson(1, L, N), (1, N)),
+        ("Burgers", lambda L: S.Burgers(1, L, N, 0.01, order=1), (1, N)),
+        ("KortewegDeVries", lambda L: S.KortewegDeVries(1, L, N, 0.001, order=1), (1, N)),
+        ("KuramotoSivashinsky", lambda L: S.KuramotoSivashinsky(1, L, N, 0.01, order=1), (1, N)),
+        ("KuramotoSivashinsky2D", lambda L: S.KuramotoSivashinsky(2, L, 4, 0.01, order=1), (1, 4, 4)),
+        ("GeneralNonlinearStepper", lambda L: ex.stepper.generic.GeneralNonlinearStepper(1, L, N, 0.01, nonlinear_coefficients=(0.1, -1.0, 0.3), order=1), (1, N)),
+        ("FisherKPP", lambda L: S.reaction.FisherKPP(1, L, N, 0.01, order=1), (1, N)),
     ]
     for nm, mk, shape in cases:
         ins = [In("L", (), lo=0.5, hi=2.0), In("u", shape), In("ct", shape)]
@@ -213,7 +246,7 @@ def _finiteness(ck):
                 divs.append(d)
         facts = enc.interp.sound_facts()
         for j, d in enumerate(divs[:40]):
-            ck.add(f"finite/{nm}/divisor{j}", d != 0, [L > 0] + facts, family=fam, timeout=60)
+            ck.add(f"finite/{nm}/divisor{j}", d != 0, [L > 0] + facts, family=fam, timeout=60, replay=_finite_replay(nm, mk, shape))
         try:
             g = jax.vjp(lambda v: mk(1.3)(v), jnp.ones(shape) * 0.2)[1](jnp.ones(shape))[0]
             ok = bool(jnp.all(jnp.isfinite(g)))
